@@ -546,11 +546,7 @@ class CastFam(Family):
         return f"fire to={attr_of(n, 'to')}"
 
     def finding(self, c):
-        # exactly the region of the shipped table: second hop FLOAT -> FLOAT16/BFLOAT16 with a source type that is not exactly
-        # representable in FLOAT.  Any other (type2, type3) pair that fires is NOT covered by this finding.
-        if (c["kind"] == "castcast" and c["t2"] == TP.FLOAT and c["t3"] in (TP.FLOAT16, TP.BFLOAT16)
-                and c["src"] not in (1, 10, 16, 2, 3, 4, 5, 9)):
-            return "C05-N7"
+        # C05-N7 (inexact source type) is fixed in /repo (e86ba81): the rule refuses; witness in the corpus
         return None
 
     prefer = "ref"
@@ -1480,8 +1476,7 @@ class ExpandBinFam(Family):
            "LessOrEqual", "Mod", "Mul", "Or", "Pow", "PRelu", "Sub", "Xor"]
 
     def __init__(self):
-        self.rule_keys = tuple(f"expand_before_binary_op_rules[{2 * i + s}:Expand{'First' if s == 0 else 'Second'}_{op}]"
-                               for i, op in enumerate(self.OPS) for s in (0, 1))
+        self.rule_keys = ("expand_before_binary_op_rules[",)
 
     def gen(self, rng):
         op = rng.choice(self.OPS)
@@ -1561,7 +1556,7 @@ class ExpandBinFam(Family):
         return False
 
     def line(self, c):
-        if c.get("dyn", 0):
+        if c.get("dyn", 0) and not (c["op"] == "PRelu" and not c["second"]):
             return None     # strategies 2/3 are not in the Lean model (shared with C09): numeric judgement only
         declx = (["N"] + c["x"][1:]) if (c["symx"] and c["x"] and c["x"][0] != 1) else c["x"]
         attrs = c["op"] == "BitShift" or (c["op"] == "Mod" and c["fmod"])
@@ -1574,12 +1569,7 @@ class ExpandBinFam(Family):
     def finding(self, c):
         # C05-N3b (attributes dropped) is fixed in /repo (8db6c47): the rewritten op keeps them; witnesses in the corpus
         # C05-N3a (Expand target longer than both operands) is fixed in /repo (48b48d2): the rule refuses; witness in the corpus
-        if c["op"] == "PRelu" and not c["second"]:
-            try:
-                if list(np.broadcast_shapes(tuple(c["x"]), tuple(c["y"]))) != list(c["x"]):
-                    return "C05-N3c"
-            except ValueError:
-                pass
+        # C05-N3c (PRelu, Expand on X) is fixed in /repo (dd5f7df): no such rule any more; witness in the corpus
         return None
 
 
